@@ -117,10 +117,12 @@ package storage
 //@   modifies ghost.rec_n ghost.rec_key ghost.rec_val ghost.rec_uk ghost.rec_rev ghost.it_pos ghost.it_lo ghost.it_hi
 //@   ensures [non-nil] err == nil ==> it != nil && it_pos == 0 && rec_n >= 0 && rec_n <= 0x1000000000000 && it_lo == start && it_hi == end
 // start <= end: ascending over [start, end); start > end: descending from start (inclusive) down to end (exclusive)
+//@   ensures [failed-means-no-iteration] err != nil ==> rec_n == 0 && it_pos == 0
 //@   ensures [sorted-by-key-then-revision] err == nil && bytes_cmp(start, end) <= 0 ==> sorted_seq(rec_uk, rec_rev, rec_n)
 //@   ensures [descending-stays-within-bounds] err == nil && bytes_cmp(start, end) > 0 ==> forall(i, 0 <= i && i < rec_n, bytes_cmp(rec_key[i], start) <= 0 && bytes_cmp(rec_key[i], end) > 0)
-// (len >= 14: user keys are not empty -- every stored key lies under the configured prefix)
-//@   ensures [records-are-internal-keys] err == nil ==> forall(i, 0 <= i && i < rec_n, is_internal_key(rec_key[i]) && len(rec_key[i]) >= 14 && rec_rev[i] == key_rev(rec_key[i]) && rec_key[i].obj <= alloc && rec_val[i].obj <= alloc && (rec_rev[i] == 0 ==> len(rec_val[i]) >= 8))
+// (len >= 14: user keys are not empty -- every stored key lies under the configured prefix;
+// values are not empty: index values have 8 or 9 bytes, version values are non-empty client values or the deletion marker)
+//@   ensures [records-are-internal-keys] err == nil ==> forall(i, 0 <= i && i < rec_n, is_internal_key(rec_key[i]) && len(rec_key[i]) >= 14 && rec_rev[i] == key_rev(rec_key[i]) && rec_key[i].obj <= alloc && rec_val[i].obj <= alloc && len(rec_val[i]) >= 1 && !is_nil(rec_val[i]) && (rec_rev[i] == 0 ==> len(rec_val[i]) >= 8))
 // assumed about the stored data: an index record's value (8 revision bytes, optionally one flag byte)
 // never equals the 9 bytes "tombstone" -- that would take revision 0x746f6d6273746f6e with flag 'e'
 //@   ensures [index-values-are-not-the-deletion-marker] err == nil ==> forall(i, 0 <= i && i < rec_n, pair_hint(i, i) ==> (rec_rev[i] == 0 ==> !dead(i)))
